@@ -61,3 +61,12 @@ Theorem C08_rewrite_is_per_paragraph : forall f bs bs',
           (concat (map RenderProofs.blk_leaves (Transforms.coalesce_doc bs))) (concat (map RenderProofs.blk_leaves bs')).
 Proof. exact ScopeProofs.across_inlines_leafwise. Qed.
 Print Assumptions C08_rewrite_is_per_paragraph.
+
+(* 7. Nothing but straight quote characters is ever changed: a text without apostrophe and double quote comes back exactly as it is. *)
+Theorem C08_no_quotes_no_change : forall text out,
+  smart_quotes text = inl out -> (forall c, In c text -> c <> apos /\ c <> dquote) -> out = text.
+Proof.
+  intros text out H N. apply ScopeProofs.pw_no_quotes; [|exact N].
+  exact (proj1 (smart_quotes_spec text out C08_cert H)).
+Qed.
+Print Assumptions C08_no_quotes_no_change.
